@@ -161,7 +161,7 @@ class OptEngineBase:
         k = rng.choice([1, 1, 1, 2, 2, 3][: max(1, max_faults * 2)])
         k = min(k, max_faults)
         # weight seams so that clock (many reads) does not swamp the others
-        weights = [3.0 if s[1] in ("solver", "disk") else (2.0 if s[1] == "stdout" else 0.6) for s in slots]
+        weights = [3.0 if s[1] in ("solver", "disk") else (2.0 if s[1] in ("stdout", "usercode") else 0.6) for s in slots]
         used = set()
         for _ in range(k):
             op, seam, n = rng.choices(slots, weights=weights)[0]
